@@ -1571,7 +1571,7 @@ async def case_reredirect(conn, size, piece, slow, delay):
         # a pipe nobody reads yet: it fills up, the pipe transport pauses the channel, and nothing but the
         # re-redirection can take that pause away
         r, w = os.pipe()
-        proc = await conn.create_process(new_id(acts), encoding=None, stdout=w)
+        proc = await conn.create_process(new_id(acts), encoding=None, stdout=w, window=32768)
     await asyncio.sleep(delay)
     second = KeepBytesIO()
     await proc.redirect(stdout=second)
@@ -1605,10 +1605,6 @@ def judge_reredirect(data, got, pipe_first=False):
     if got is None:
         return 'the process never finished after stdout was redirected a second time while the first target had it paused'
     a, b = got
-    if pipe_first:
-        # byte accounting for this variant is recorded, not judged (see e2e_reredirect.pipe_variant_bytes_missing):
-        # what is judged is that the pause of the abandoned pipe does not outlive the re-redirection
-        return None if data.startswith(a) else 'the first target received data that was not sent in that order'
     if a + b != data:
         return (f'first target got {len(a)} bytes, second {len(b)}, together they are not the {len(data)} bytes sent '
                 f'(prefix ok: {data.startswith(a)})')
@@ -1684,9 +1680,10 @@ async def e2e_more(ctx):
               if got is None:
                   hangs += 1
               if why:
-                  report_once(ctx, 'reredirect', f're-redirection of stdout ({size} bytes, first target takes {slow} loop turns '
+                  report_once(ctx, 'reredirect:%s' % bool(slow), f're-redirection of stdout ({size} bytes, first target takes {slow} loop turns '
                               f'per write): {why}',
-                              {'kind': 'e2e_reredirect', 'class': 'reredirect', 'size': size, 'piece': piece, 'slow': slow})
+                              {'kind': 'e2e_reredirect', 'class': 'reredirect-hang' if got is None else 'reredirect-lost',
+                               'size': size, 'piece': piece, 'slow': slow})
     finally:
         conn.close()
         listener.close()
